@@ -21,9 +21,12 @@ from vlib import cz, cn, cbool, clist
 
 AREA = "Rbac"
 PKG = "./internal/auth/"
-THEOREMS = [("Arc.Rbac.Props", t) for t in ("C20_delete_org_refuted", "C20_key_refuted", "C20_coherent_guarded", "C20_coherent_fixed")] + \
-           [("Arc.Rbac.Obligations", t) for t in ("C20_direct_missing_known", "C20_cluster_missing_none", "C20_deployed_coherent",
-                                                   "C20_deployed_cluster_covers")]
+THEOREMS = [("Arc.Rbac.Obligations", t) for t in (
+    # PRIMARY: coherence of the code as it is now (tables and key shape re-extracted each run)
+    "C20_deployed_coherent", "C20_direct_missing_none", "C20_cluster_missing_none", "C20_deployed_key_has_tokeninfo")] + \
+    [("Arc.Rbac.Props", t) for t in ("C20_coherent_fixed", "C20_coherent_guarded",
+                                      # statements about the variants before eac348f / ed2e486
+                                      "C20_delete_org_refuted", "C20_key_refuted")]
 MODULES = ["Arc.Rbac.Props", "Arc.Rbac.Obligations"]
 TIE_NAME = ("C20 correspondence (operation sequences on the real RBACManager vs Arc.Rbac.Model.run / spec_run) / "
             "Params_Rbac (invalidation per mutation, permissionCacheKey fields)")
@@ -169,7 +172,7 @@ def run_impl(cases, tag):
     d = os.path.join(vlib.WORK, "cases", "C20")
     os.makedirs(d, exist_ok=True)
     cin, cout = os.path.join(d, tag + "_in.json"), os.path.join(d, tag + "_out.json")
-    json.dump([{k: v for k, v in c.items() if k not in ("fam", "obs")} for c in cases], open(cin, "w"))
+    json.dump([{k: v for k, v in c.items() if k not in ("fam", "obs", "nondet")} for c in cases], open(cin, "w"))
     if os.path.exists(cout):
         os.remove(cout)
     rc, out = vlib.go_test(PKG, "^TestVerifRbac$", overlay=overlay(), env={"VERIF_CASES": cin, "VERIF_OUT": cout}, name="C20_" + tag, timeout=1800)
@@ -311,8 +314,10 @@ def gen_sequence(rng, mode, enabled, ttl, allow_bad):
             ops.append({"op": "check", "req": r})
         elif x < 0.50:
             ops.append({"op": "batch", "reqs": [a_check() for _ in range(rng.randint(1, 4))]})
-        elif x < 0.54:
-            ops.append({"op": "tick", "dt": rng.choice([1 * SEC, ttl - 1, ttl, ttl + 1, 2 * ttl])})
+        elif x < 0.53:
+            ops.append({"op": "tick", "dt": rng.choice([1 * SEC, ttl // 2, ttl - 1, ttl, ttl + 1, 2 * ttl])})
+        elif x < 0.55:
+            ops.append({"op": "janitor"})
         elif x < 0.57 and tr.checked:
             tid, db, meas, perm = rng.choice(tr.checked)
             if rng.random() < 0.5:
@@ -432,9 +437,98 @@ def pattern_grid():
     return out
 
 
+def janitor_cases(rng, n):
+    """the two caches expire independently: token data loaded at t0, a decision computed later
+    (still from that data) outlives it; the cleanup loop then drops the data only; a membership
+    change must nevertheless purge the decision"""
+    out = []
+    ttl = 30 * SEC
+    for i in range(n):
+        mode = ("direct", "cluster")[i % 2]
+        member_first = rng.random() < 0.6
+        ops = [mut("create_org"), mut("create_team", a=1), mut("create_role", a=1, pat=rng.choice(["*", "prod*", "prod_*"]), perms=[2]),
+               mut("create_token"), mut("create_token")]
+        if member_first:
+            ops.append(mut("add_member", a=1, b=1))
+        ti = ti_of(1, rng.choice([[], [], [3]]))
+        a, b = rng.sample(["prod", "prod_us", "production", "prod_"], 2)
+        ops += [chk(ti, a, "", 2), {"op": "tick", "dt": rng.choice([ttl // 2, ttl // 3, ttl - 1])}, chk(ti, b, "", 2)]
+        if rng.random() < 0.5:
+            ops.append(chk(ti_of(2, []), a, "", 2))
+        ops += [{"op": "tick", "dt": rng.choice([ttl // 2 + SEC, ttl // 2, 2 * ttl // 3, ttl // 3 + 1])}, {"op": "janitor"}]
+        ops.append(mut("remove_member", a=1, b=1) if member_first else mut("add_member", a=1, b=1))
+        ops += [chk(ti, b, "", 2), chk(ti, a, "", 2), {"op": "batch", "reqs": [{"ti": ti, "db": b, "meas": "", "perm": 2}, {"ti": ti_of(2, []), "db": a, "meas": "", "perm": 2}]}]
+        if rng.random() < 0.5:
+            ops += [mut("add_member", a=1, b=1) if member_first else mut("remove_member", a=1, b=1), {"op": "janitor"}, chk(ti, b, "", 2)]
+        out.append({"fam": "J:janitor:" + mode, "mode": mode, "enabled": True, "ttl": ttl, "t0": T0, "ops": ops})
+    return out
+
+
+def eviction_cases(rng, n):
+    """tiny MaxCacheSize: checks of other tokens evict (at random, independently in the two
+    caches) this token's data and/or decisions.  Which entry Go's map iteration evicts is not
+    reproduced by the model: these cases are judged by the cache-free oracle only."""
+    out = []
+    for i in range(n):
+        mode = ("direct", "cluster")[i % 2]
+        ops = [mut("create_org"), mut("create_team", a=1), mut("create_team", a=1), mut("create_role", a=1, pat="*", perms=[2]),
+               mut("create_role", a=2, pat="prod*", perms=[3])] + [mut("create_token") for _ in range(4)]
+        members = set()
+        for t in (1, 2, 3):
+            if rng.random() < 0.6:
+                ops.append(mut("add_member", a=t, b=1))
+                members.add((t, 1))
+        keys = [(t, d, p) for t in (1, 2, 3, 4) for d in ("prod", "staging") for p in (2, 3)]
+        for _ in range(rng.randint(10, 18)):
+            x = rng.random()
+            if x < 0.7:
+                t, d, p = rng.choice(keys)
+                ops.append(chk(ti_of(t, []), d, "", p))
+            elif x < 0.78:
+                ops.append({"op": "batch", "reqs": [{"ti": ti_of(t, []), "db": d, "meas": "", "perm": p} for t, d, p in rng.sample(keys, 3)]})
+            else:
+                t, tm = rng.choice([1, 2, 3]), rng.choice([1, 2])
+                if (t, tm) in members:
+                    ops.append(mut("remove_member", a=t, b=tm))
+                    members.discard((t, tm))
+                else:
+                    ops.append(mut("add_member", a=t, b=tm))
+                    members.add((t, tm))
+        for t, d, p in keys[:8]:
+            ops.append(chk(ti_of(t, []), d, "", p))
+        out.append({"fam": "E:evict:" + mode, "mode": mode, "enabled": True, "ttl": 30 * SEC, "t0": T0, "max": rng.choice([1, 2, 2, 3]),
+                    "nondet": True, "ops": ops})
+    return out
+
+
+ROLE_MOVES = [("prod*", "dev*", "production"), ("prod_*", "*_metrics", "prod_us"), ("*", "staging", "prod"), ("prod", "prod*", "prod"),
+              ("*_us", "prod_*", "bus_us"), ("prod*", "prod_*", "production"), ("*_metrics", "*", "dev_metrics"), ("x", "p_*", "x"),
+              ("prod_*", "prod*", "prod_us"), ("staging", "*abc", "staging")]
+
+
+def role_move_cases():
+    """a role's database pattern is moved after a decision for a database matched by the OLD
+    pattern was cached (UpdateRole / ApplyUpdateRole must flush it); same for permissions and
+    for a second role created later"""
+    out = []
+    for mode in ("direct", "cluster"):
+        for old, new, db in ROLE_MOVES:
+            setup = [mut("create_org"), mut("create_team", a=1), mut("create_role", a=1, pat=old, perms=[2]), mut("create_token"),
+                     mut("add_member", a=1, b=1)]
+            ti = ti_of(1, [])
+            ops = setup + [chk(ti, db, "", 2), chk(ti, "staging", "", 2), mut("update_role", id=1, pat=new), chk(ti, db, "", 2),
+                           chk(ti, "staging", "", 2), mut("update_role", id=1, perms=[3]), chk(ti, db, "", 2), chk(ti, db, "", 3),
+                           mut("create_role", a=1, pat=old, perms=[2, 3]), chk(ti, db, "", 2),
+                           {"op": "batch", "reqs": [{"ti": ti, "db": db, "meas": "", "perm": 3}, {"ti": ti, "db": "staging", "meas": "", "perm": 2}]},
+                           mut("update_role", id=2, pat=new, perms=[4]), chk(ti, db, "", 2), chk(ti, db, "", 3)]
+            out.append({"fam": "U:role-move:" + mode, "mode": mode, "enabled": True, "ttl": 30 * SEC, "t0": T0, "ops": ops})
+    return out
+
+
 def gen_cases(rng, tier):
     n = 110 if tier == "quick" else 1500
-    cases = witness_cases() + pattern_grid()
+    cases = witness_cases() + pattern_grid() + role_move_cases() + janitor_cases(rng, 40 if tier == "quick" else 400) + \
+        eviction_cases(rng, 40 if tier == "quick" else 400)
     for i in range(n):
         for mode in ("direct", "cluster"):
             cases.append(gen_sequence(rng, mode, True, 30 * SEC, allow_bad=False))
@@ -495,6 +589,8 @@ def op_to_coq(o, nm):
         return "OTick %s" % cz(o["dt"])
     if k == "drop_tok":
         return "ODropTok %s" % cn(o["id"])
+    if k == "janitor":
+        return "OJanitor"
     if k == "drop_perm":
         r = o["req"]
         return "ODropPerm (KEY %s %s)" % (nm.ti(r["ti"]), nm.q(r))
@@ -602,7 +698,7 @@ def nontrivial(c):
 
 
 def canon(c):
-    return json.dumps({k: c[k] for k in ("mode", "enabled", "ttl", "ops")}, sort_keys=True)
+    return json.dumps({k: c.get(k) for k in ("mode", "enabled", "ttl", "max", "ops")}, sort_keys=True)
 
 
 def corpus_cases():
@@ -663,6 +759,10 @@ def run(res, tier, seed):
         "eviction at capacity and the one-minute cleanup loop are the model's ODropPerm / ODropTok (any entry may vanish); maps' random eviction choice is not reproduced",
         "the Invalidate* statement 'on the success path' of each mutation is recognised textually (top-level statement of the function body after its last SQL write)",
     ]
+    if tier == "thorough":
+        ok, _ = vlib.coqchk_stage(res, MODULES)
+        if not ok:
+            failed.append(("coqchk", "coqchk did not accept the compiled development"))
     t1 = time.time()
     cases = corpus_cases() + gen_cases(rng, tier)
     for i, c in enumerate(cases):
@@ -672,7 +772,9 @@ def run(res, tier, seed):
     t2 = time.time()
     ev = eval_in_coq(out, "Cases_C20_%s" % tier)
     res.stage("coq_eval", t2)
-    dis, orf = ev["agree"], ev["oracle"]
+    nondet = {i for i, c in enumerate(out) if c.get("nondet")}
+    dis, orf = [i for i in ev["agree"] if i not in nondet], ev["oracle"]
+    res.cov["oracle_only_cases"] = len(nondet)
     not_by_table, not_by_key, not_by_both = set(ev["by_table"]), set(ev["by_key"]), set(ev["by_both"])
 
     res.cov["evaluations"] = len(out)
